@@ -137,6 +137,8 @@ func init() {
 			Run: func(P *Program, R *Report) { errorResultsUsedRule(P, R, "C12.o", inFiles(P, "rangeproof/"), nil, 5) }},
 		Rule{ID: "C12.p", Explain: "the response a range proof is tied to is a bound one: an attribute index is never both disclosed and hidden (the obligations of C01.g, same rule) - a tolerated response at a disclosed index is skipped when Z is rebuilt and still used as the range proof's attribute response.",
 			Run: func(P *Program, R *Report) { sharedRule(P, R, "C01", "C01.g", "C12.p", nil) }},
+		Rule{ID: "C12.r", Explain: "what is verified is what is reported: the range-proof structures checked by a verification are extracted from the proof as it is in that call (the obligations of C02.h, same rule) - structures remembered in the proof object from an earlier call let a descriptor (sign, factor, bound, l_d) altered since then pass the equations of the old one while Proves / ProvenStatement read the new one.",
+			Run: func(P *Program, R *Report) { sharedRule(P, R, "C02", "C02.h", "C12.r", nil) }},
 	)
 }
 
